@@ -2,6 +2,7 @@ package sim
 
 import (
 	"fmt"
+	"os"
 	"sort"
 	"strings"
 	"time"
@@ -182,6 +183,63 @@ func (h *syncHarness) compare(root string) {
 		}
 	}
 	walk(root, 0)
+	// The catch-up pass descends only where the two device hashes differ.  The hash is an XOR of CRC-32 checksums,
+	// which is linear: different content can hash alike (known finding F-C02-hash-collision).  That case is told apart
+	// exactly -- both stores report hashes that are right for their content by the independent Merkle implementation,
+	// and the two device hashes, with the device's own edge points backed out as syncNode does, are equal -- and it
+	// is reported under its own clause; any divergence with differing or wrong hashes stays what it was.
+	collision := ""
+	{
+		var hs [2]uint32
+		ok := true
+		for i, in := range []*Instance{h.up, h.down} {
+			all, err := in.Dump()
+			if err != nil || CheckHashes(all) != "" {
+				ok = false
+				break
+			}
+			found := false
+			for _, e := range all {
+				if e.ID == root {
+					hh := e.Hash
+					for _, p := range e.EdgePoints {
+						hh ^= refCRC(p)
+					}
+					hs[i] = hh
+					found = true
+					break
+				}
+			}
+			if !found {
+				ok = false
+				break
+			}
+		}
+		if ok && hs[0] == hs[1] {
+			collision = fmt.Sprintf("both stores report the same device hash %#x (each correct for its own content), so catch-up never descends; ", hs[0])
+		}
+	}
+	fail := func(clause, detail string) {
+		if collision != "" {
+			s.Fail("C02", "hash-collision", "%s%s: %s", collision, clause, detail)
+			return
+		}
+		s.Fail("C02", clause, "%s", detail)
+	}
+	if os.Getenv("VERIF_APPLOG") != "" { // debugging aid: both stores as they are when compared
+		for _, side := range []*Instance{h.up, h.down} {
+			all, _ := dumpSubtree(side, root)
+			var ks []string
+			for k := range all {
+				ks = append(ks, k)
+			}
+			sort.Strings(ks)
+			for _, k := range ks {
+				e := all[k]
+				fmt.Fprintf(os.Stderr, "DUMP %s %s hash=%#x pts=%s | edge=%s\n", side.Name, k, e.Hash, shortPts(e.Points), shortPts(e.EdgePoints))
+			}
+		}
+	}
 	for _, side := range []struct {
 		name string
 		in   *Instance
@@ -206,7 +264,7 @@ func (h *syncHarness) compare(root string) {
 			return
 		}
 		if d := comparePointsOpt(fmt.Sprintf("%s: device %s", side.name, root), rootEdge.Points, wantNodes[root], true); d != "" {
-			s.Fail("C02", "diverged-points", "%s", d)
+			fail("diverged-points", d)
 			return
 		}
 		got := map[[2]string]data.NodeEdge{}
@@ -236,18 +294,18 @@ func (h *syncHarness) compare(root string) {
 		sort.Strings(gk)
 		sort.Strings(wk)
 		if strings.Join(gk, " ") != strings.Join(wk, " ") {
-			s.Fail("C02", "diverged-nodes", "instance %s shows live placements [%s] below the device; by the newest tombstones either store accepted they are [%s]",
-				side.name, strings.Join(gk, " "), strings.Join(wk, " "))
+			fail("diverged-nodes", fmt.Sprintf("instance %s shows live placements [%s] below the device; by the newest tombstones either store accepted they are [%s]",
+				side.name, strings.Join(gk, " "), strings.Join(wk, " ")))
 			return
 		}
 		for k, we := range wantLive {
 			g := got[k]
 			if d := comparePointsOpt(fmt.Sprintf("%s: node %s", side.name, k[1]), g.Points, wantNodes[k[1]], true); d != "" {
-				s.Fail("C02", "diverged-points", "%s", d)
+				fail("diverged-points", d)
 				return
 			}
 			if d := comparePointsOpt(fmt.Sprintf("%s: edge %s/%s", side.name, k[0], k[1]), g.EdgePoints, we.Pts, true); d != "" {
-				s.Fail("C02", "diverged-edge-points", "%s", d)
+				fail("diverged-edge-points", d)
 				return
 			}
 		}
